@@ -257,7 +257,7 @@ def generate(ctx):
         t = node_tokens(T_NULL)
         for _ in range(levels): t = node_tokens(T_ARRAY, children=[t])
         return t
-    deep = deep_array(10001)                      # node_depth 10002: one level more than cJSON_Duplicate accepts
+    deep = deep_array(circular_limit(ctx['repo']) + 1)       # one level more than cJSON_Duplicate accepts
     tgt = ' '.join(toks(Obj([('b', 1), ('a', Obj([('x', 'y')]))]), None))
     keyed = lambda key, t: t[:5] + [htok(key)] + t[6:]
     for cs in (1, 0):
@@ -266,7 +266,8 @@ def generate(ctx):
         cases.append(Case('mergepatch %d %s %s' % (cs, tgt, ' '.join(p)), {'tags': ['apply', 'dup-depth-limit', 'robustness']}))
     # --- values nested about as deep as the parser accepts, under an object member (arrays: merge patch replaces them wholesale)
     if ctx.get('seed_index', 0) == 0:
-        for depth in (997, 998, 999, 1000):
+        NL = nesting_limit(ctx['repo'])
+        for depth in (NL - 3, NL - 2, NL - 1, NL):
             a = 1; b = 2
             for _ in range(depth - 1): a = [a]; b = [b]
             add_apply(Obj([('k', a), ('z', 0)]), Obj([('k', b)]), 1, ['deep'], flags=False)
